@@ -5,7 +5,7 @@ the representation invariant, execute the real MIR of one operation with symboli
 check the post-conditions, each tagged with the property it belongs to.  One step covers histories of any length whose
 states have <= N entries.  The oracle is the properties' statement over (pre-state, arguments, result, post-state)."""
 import time, json, z3
-from .engine import (Interp, Ctx, Str, Agg, Ref, Cell, explore, Unsupported, Panic, Deadlock, is_conc, is_z3, simp, b_and, b_or, b_not, deref_all, to_real, powf_term)
+from .engine import (term_eq, Interp, Ctx, Str, Agg, Ref, Cell, explore, Unsupported, Panic, Deadlock, is_conc, is_z3, simp, b_and, b_or, b_not, deref_all, to_real, powf_term)
 from .models import Harness, Cfg, POLICIES, NS, HITS_MAX
 
 RECENCY = ('LRU', 'ARC', 'TLRU')
@@ -158,6 +158,10 @@ def run_step(P, cfg, n, op, props=None, seed=0, timeout_ms=20000, nmax=None, dea
         elif op == 'insert': r = h.call('insert', kstr, v)
         elif op == 'insert_with_memory': r = h.call('insert_with_memory', kstr, v)
         elif op == 'clear': r = h.call('clear')
+        elif op in ('insert_result_ok', 'insert_result_err'):
+            rv = Agg('Result', 0 if op.endswith('ok') else 1, [v])
+            r = h.call('insert_result', kstr, Ref(Cell(rv, 'res')))
+            cur['rv'] = rv
         else: raise Unsupported('op ' + op)
         return h, k, v, r, pre_clock
 
@@ -184,7 +188,9 @@ def run_step(P, cfg, n, op, props=None, seed=0, timeout_ms=20000, nmax=None, dea
         claims = []
         if op == 'get': cls = oracle_get(ctx, h, k, r, claims, pre_clock)
         elif op in ('insert', 'insert_with_memory'): cls = oracle_insert(ctx, h, k, v, claims, pre_clock, with_memory=(op == 'insert_with_memory'))
-        else: cls = ['clear']
+        elif op == 'insert_result_ok': cls = oracle_insert(ctx, h, k, Agg('Result', 0, [v]), claims, pre_clock, with_memory=False)
+        elif op in ('insert_result_err', 'clear'): cls = oracle_unchanged_or_empty(ctx, h, claims, op)
+        else: cls = [op]
         for c in cls: res.classes.add(c)
         for case_cond, cl in claims:
             if props is not None and cl.prop not in props: continue
@@ -198,7 +204,7 @@ def run_step(P, cfg, n, op, props=None, seed=0, timeout_ms=20000, nmax=None, dea
                     res.spurious_real = getattr(res, 'spurious_real', 0) + 1
                     continue
                 res.failed.append(dict(prop=cl.prop, clause=cl.clause, cfg=cfg.tag(), n=n, op=op,
-                                       witness=model_witness(ctx, model, h, dict(argkey=k, argval=v, argsize=h.SIZE(v), op=op, result=('Some' if getattr(r, 'variant', 0) == 1 else 'None') if op == 'get' else None))))
+                                       witness=model_witness(ctx, model, h, dict(argkey=k, argval=v, argsize=(h.SIZE(v) if not isinstance(v, Agg) else 0), op=op, result=('Some' if getattr(r, 'variant', 0) == 1 else 'None') if op == 'get' else None))))
     res.wall = time.time() - t0
     return res
 
@@ -214,7 +220,23 @@ def _post(ctx, h, k):
 
 
 def _unchanged(e, s):
-    return b_and(simp(s['val'] == e.val), simp(s['birth'] == e.birth), simp(s['hits'] == e.hits))
+    return b_and(simp(term_eq(s['val'], e.val)), simp(s['birth'] == e.birth), simp(s['hits'] == e.hits))
+
+
+def oracle_unchanged_or_empty(ctx, h, claims, op):
+    pv, store, queue = _post(ctx, h, None)
+    ids = [s['id'] for s in store]
+    def add(prop, clause, f): claims.append((True, Claim(prop, clause, f)))
+    add('C16', 'no lock / borrow is left held', not h.locks_free())
+    h1, m1 = h.stats_view()
+    add('C15', 'a store or a clear does not touch the hit/miss counters', b_and(simp(h1 == h.h0), simp(m1 == h.m0)))
+    if op == 'clear':
+        add('C12', 'clear empties the store', len(ids) == 0); add('C12', 'clear empties the eviction queue', len(queue) == 0)
+        add('C04', 'queue tracks exactly the stored keys', len(ids) == 0 and len(queue) == 0)
+        return ['clear']
+    add('C09', 'an Err result is not stored: the cache is unchanged', ids == list(reversed(range(h.n))) and queue == list(range(h.n)) and simp(b_and(*[_unchanged(h.pre[s['id']], s) for s in store])))
+    add('C01', 'an Err result is not stored: the cache is unchanged', ids == list(reversed(range(h.n))) and queue == list(range(h.n)))
+    return ['insert_result/err']
 
 
 def oracle_get(ctx, h, k, r, claims, pre_clock):
@@ -314,10 +336,10 @@ def oracle_insert(ctx, h, k, v, claims, pre_clock, with_memory=False):
         add('C04', 'queue tracks exactly the stored keys, without duplicates', sorted(map(str, queue)) == sorted(map(str, ids)) and len(set(map(str, queue))) == len(queue))
         me = [s for s in store if s['id'] == newid]
         # sizes / memory
-        size_new = h.SIZE(v)
+        size_new = h.SIZE(v) if not isinstance(v, Agg) else 0
         oversized = (size_new > cfg.mem) if (with_memory and cfg.has_mem) else False
         if me:
-            add('C01', 'after a store the entry holds the value just stored (last store wins)', simp(me[0]['val'] == v))
+            add('C01', 'after a store the entry holds the value just stored (last store wins)', simp(term_eq(me[0]['val'], v)))
             t_first = clock[pre_clock - 1] if pre_clock >= 1 else 0
             add('C06', 'a (re-)stored entry starts a fresh lifetime', simp(me[0]['birth'] >= (h.now0)))
             if cfg.policy in COUNTING: add('C08', 'a (re-)stored entry starts with zero uses', simp(me[0]['hits'] == 0))
